@@ -28,3 +28,40 @@ Theorem C14_exported : forall U caps s,
   blank_ok U -> Forall (cap_start_ok U) caps -> forallb (good U) s = true -> exported U (identifierize U caps s) = true.
 Proof. exact identifierize_exported. Qed.
 Print Assumptions C14_exported.
+
+(* ---------- distinctness ---------- *)
+From GJS Require Import NamesP.
+
+(* identifiers never contain '_' (it is a separator), so the `_n` suffixes cannot collide with another
+   name: sibling properties ALWAYS get pairwise distinct field names - for every set of sibling names
+   inside the character guard, however many of them normalise to the same identifier *)
+Theorem C14_no_underscore : forall U caps s,
+  underscore_is_separator U -> Forall no_us caps -> forallb (good U) s = true -> no_us (identifierize U caps s).
+Proof. exact identifierize_no_underscore. Qed.
+Print Assumptions C14_no_underscore.
+
+Theorem C14_fields_distinct : forall U caps names,
+  underscore_is_separator U -> Forall no_us caps -> Forall (fun n => forallb (good U) n = true) names ->
+  NoDup (field_names (map (identifierize U caps) names)).
+Proof. exact sibling_fields_distinct. Qed.
+Print Assumptions C14_fields_distinct.
+
+(* the suffixing itself, for arbitrary underscore-free identifiers *)
+Theorem C14_suffixing_distinct : forall ids, Forall no_us ids -> NoDup (field_names ids).
+Proof. exact field_names_distinct. Qed.
+Print Assumptions C14_suffixing_distinct.
+
+(* a type name handed out by uniqueTypeName is not one of the completed declarations *)
+Theorem C14_type_name_fresh : forall name taken all r, (forall x, In x taken -> In x all) ->
+  unique_type_name name taken all = Some r -> ~ In r taken.
+Proof. exact unique_type_name_fresh. Qed.
+Print Assumptions C14_type_name_fresh.
+
+(* refuted in full: uniqueTypeName treats a declaration still in progress as free, so the base name is
+   handed out twice (D38) *)
+Theorem C14_refuted_in_progress : exists name taken all, In name all /\ unique_type_name name taken all = Some name.
+Proof. exists [84]%N, [], [[84]%N]. split; [left; reflexivity|reflexivity]. Qed.
+
+(* the tag carries the exact property name: C16_names_only; keys bind to their own field: C02_binding *)
+Example C14_example : field_names [[70]%N; [70]%N; [71]%N; [70]%N] = [[70]%N; [70; 95; 50]%N; [71]%N; [70; 95; 51]%N].
+Proof. reflexivity. Qed.
